@@ -918,6 +918,8 @@ def trees(draw, types, dom, ran, depth, mode='c04', pairs=None,
         rules += ['pow']
     if R.cat == 'field' and dom_space and ran == fkey_dom and mode == 'c04':
         rules += ['translated']
+    if mode == 'c06' and R.cat == 'leaf' and depth >= 2:
+        rules += ['comp_pos'] * 4
     if ctor_weights:
         rules = [r for r in rules for _ in range(ctor_weights.get(r, 1))]
     rule = draw(st.sampled_from(rules))
@@ -935,6 +937,26 @@ def trees(draw, types, dom, ran, depth, mode='c04', pairs=None,
     node = {'op': rule, 'dom': dom, 'ran': ran, 'fk': 'op'}
     if rule == 'leaf':
         return draw(leaves(types, dom, ran, mode))
+    if rule == 'comp_pos':
+        # ufuncs / powers with a restricted domain, applied to a positive
+        # (real part) inner expression: chain rule at the inner point
+        inner = draw(trees(types, dom, ran, depth - 2, mode, pairs))
+        posname = draw(st.sampled_from(['cosh', 'cosh', 'exp']))
+        pos = {'op': 'comp', 'how': 'mul', 'dom': dom, 'ran': ran,
+               'fk': 'op', 'b': inner,
+               'a': {'op': 'leaf', 'kind': 'ufunc', 'dom': ran, 'ran': ran,
+                     'args': {'name': posname}, 'fk': 'op'}}
+        if draw(st.booleans()):
+            outer = {'op': 'leaf', 'kind': 'ufunc', 'dom': ran, 'ran': ran,
+                     'fk': 'op', 'args': {'name': draw(st.sampled_from(
+                         ['sqrt', 'log', 'reciprocal']))}}
+        else:
+            ps = [-1, -2] if R.cplx else [0.5, -1, 2.5, 1.5]
+            outer = {'op': 'leaf', 'kind': 'power', 'dom': ran, 'ran': ran,
+                     'fk': 'op', 'args': {'p': draw(st.sampled_from(ps))}}
+        node.update({'op': 'comp', 'how': draw(st.sampled_from(
+            ['mul', 'ctor'])), 'a': outer, 'b': pos})
+        return node
     if rule in ('sum', 'diff', 'pwprod'):
         a, b = sub_full(), sub()
         if draw(st.booleans()):
@@ -1186,7 +1208,16 @@ def node_site(b):
         else '0'
     meth = _OVERLOAD.get((op, how))
     if meth is not None:
-        return '{}.{}'.format(first, meth)
+        # the class that *defines* the overload which ran (Operator,
+        # Functional, OperatorRightScalarMult ...)
+        name = meth.split('(')[0]
+        owner = first
+        if b.kids and b.kids[0] is not None:
+            for klass in type(b.kids[0].obj).__mro__:
+                if name in klass.__dict__:
+                    owner = klass.__name__
+                    break
+        return '{}.{}'.format(owner, meth)
     if how == 'fprod':
         return 'FunctionalProduct(ctor)'
     if op in _CTOR_CLASS:
@@ -1440,8 +1471,19 @@ class Interp(object):
             if isinstance(p, np.ndarray):
                 eps = np.finfo(p.dtype).eps
                 sg = self.rng.randint(0, 2, size=p.shape) * 2 - 1
+                if p.dtype.kind == 'c':
+                    # real and imaginary parts round independently
+                    sg2 = self.rng.randint(0, 2, size=p.shape) * 2 - 1
+                    return (p.real * (1 + self.noise * eps * sg) + 1j *
+                            p.imag * (1 + self.noise * eps * sg2)
+                            ).astype(p.dtype)
                 return (p * (1 + self.noise * eps * sg)).astype(p.dtype)
             sg = self.rng.randint(0, 2) * 2 - 1
+            if isinstance(p, complex):
+                sg2 = self.rng.randint(0, 2) * 2 - 1
+                return complex(
+                    p.real * (1 + self.noise * self.env.eps * sg),
+                    p.imag * (1 + self.noise * self.env.eps * sg2))
             return p * (1 + self.noise * self.env.eps * sg)
         return vmap(f, val)
 
@@ -1450,6 +1492,11 @@ class Interp(object):
         if self.noise:
             r = self._perturb(r)
         return r
+
+    def _arg(self, val):
+        """A computed argument (a*x, v*x, x - v): carries rounding errors of
+        its own, so it is perturbed in noise mode like a node result."""
+        return self._perturb(val) if self.noise else val
 
     def leaf(self, b, x):
         node = b.node
@@ -1484,13 +1531,13 @@ class Interp(object):
         if op == 'lscal':
             return vscale(b.scal_val, self.ev(A, x))
         if op == 'rscal':
-            return self.ev(A, vscale(b.scal_val, x))
+            return self.ev(A, self._arg(vscale(b.scal_val, x)))
         if op == 'div':
-            return self.ev(A, vscale(1.0 / b.scal_val, x))
+            return self.ev(A, self._arg(vscale(1.0 / b.scal_val, x)))
         if op == 'comp':
             return self.ev(A, self.ev(B, x))
         if op == 'rvec':
-            return self.ev(A, vmul(b.vec_np, x))
+            return self.ev(A, self._arg(vmul(b.vec_np, x)))
         if op == 'lvec':
             return vmul(b.vec_np, self.ev(A, x))
         if op == 'flvec':
@@ -1518,7 +1565,7 @@ class Interp(object):
                 y = self.ev(A, y)
             return y
         if op == 'translated':
-            return self.ev(A, vsub(x, b.vec_np))
+            return self.ev(A, self._arg(vsub(x, b.vec_np)))
         if op == 'broadcast':
             return [self.ev(k, x) for k in b.kids]
         if op == 'diagonal':
